@@ -1,8 +1,9 @@
 (* C17 — A MOC written from a map covers exactly the map's valid pixels.
-   Statements only; proofs in MocProofs.v.  The writer model Moc.moc_cells and the reader model
+   Statements only; proofs in MocProofs.v (cell arithmetic) and MocRefine.v (the writer loop, for
+   every valid set and every pair of orders).  The writer model Moc.moc_cells and the reader model
    Moc.moc_expand are executable and compared with the UNIQ column actually written and with the
    map read back on every run. *)
-From HS Require Import Prelude Moc MocProofs.
+From HS Require Import Prelude Moc MocProofs MocRefine.
 Open Scope Z_scope.
 
 (* a UNIQ number decodes (floor(log2(u/4))/2, u - 4*4^order) to the order and pixel it encodes *)
@@ -39,6 +40,43 @@ Theorem C17_a_full_cell_contains_only_valid_pixels :
     q * 4 ^ (mx - l) <= p < (q + 1) * 4 ^ (mx - l) -> In p vs.
 Proof. exact full_cell_all_valid. Qed.
 
+(* ---- the writer loop, for every valid set: sum-degrade level by level from the map's order down
+   to the coverage order, replace every pixel under a full cell by that cell, stop at the first
+   level without a full cell, remove duplicates.  [vs] is the list of valid pixels (no repetition,
+   inside the sphere at order mx), mn the coverage order. ---- *)
+
+(* the cells written, expanded at the original order, are exactly the valid pixels *)
+Theorem C17_written_cells_cover_exactly_the_valid_pixels :
+  forall mx mn (vs : list Z),
+    0 <= mn <= mx -> NoDup vs -> (forall x, In x vs -> 0 <= x < 12 * 4 ^ mx) ->
+    forall x, In x (moc_expand mx (moc_cells mx mn vs)) <-> In x vs.
+Proof. exact moc_covers_exactly. Qed.
+
+(* two written cells that share a pixel are the same cell: the cells are pairwise disjoint *)
+Theorem C17_written_cells_pairwise_disjoint :
+  forall mx mn (vs : list Z),
+    0 <= mn <= mx -> NoDup vs -> (forall x, In x vs -> 0 <= x < 12 * 4 ^ mx) ->
+    forall u1 u2 x, In u1 (moc_cells mx mn vs) -> In u2 (moc_cells mx mn vs) ->
+      In x (expand_cell mx u1) -> In x (expand_cell mx u2) -> u1 = u2.
+Proof. exact moc_cells_disjoint. Qed.
+
+(* no cell is coarser than the coverage order (nor finer than the map) *)
+Theorem C17_no_cell_coarser_than_the_coverage_order :
+  forall mx mn (vs : list Z),
+    0 <= mn <= mx -> NoDup vs -> (forall x, In x vs -> 0 <= x < 12 * 4 ^ mx) ->
+    forall u, In u (moc_cells mx mn vs) -> mn <= uniq_order u <= mx.
+Proof. exact moc_cells_order. Qed.
+
+(* each pixel ends in the coarsest full cell above it that is not coarser than the coverage order;
+   the early exit of the loop loses nothing, because fullness is inherited by descendants *)
+Theorem C17_each_pixel_ends_in_its_coarsest_full_ancestor :
+  forall mx mn (vs : list Z),
+    0 <= mn <= mx -> NoDup vs -> (forall x, In x vs -> 0 <= x < 12 * 4 ^ mx) ->
+    forall p, In p vs ->
+      exists k, mn <= k <= mx /\ final_u mx mn vs p = uniq_of k (ancestor mx k p) /\
+                fullx mx vs k p /\ forall k', mn <= k' < k -> full mx vs k' p = false.
+Proof. exact moc_cell_is_coarsest_full_ancestor. Qed.
+
 (* the executable writer + reader reproduce a valid set with full and nearly full cells *)
 Example C17_hypotheses_satisfiable :
   let vs := zrange 16 32 ++ [40; 41; 42] ++ zrange 64 128 in
@@ -52,4 +90,8 @@ Print Assumptions C17_expansion_is_the_descendants.
 Print Assumptions C17_cells_of_one_order_are_disjoint.
 Print Assumptions C17_ancestors_compose.
 Print Assumptions C17_a_full_cell_contains_only_valid_pixels.
+Print Assumptions C17_written_cells_cover_exactly_the_valid_pixels.
+Print Assumptions C17_written_cells_pairwise_disjoint.
+Print Assumptions C17_no_cell_coarser_than_the_coverage_order.
+Print Assumptions C17_each_pixel_ends_in_its_coarsest_full_ancestor.
 Print Assumptions C17_hypotheses_satisfiable.
